@@ -901,6 +901,7 @@ def run(chk: Check) -> None:
     chk.info("callables_without_signature", live["nosig"])
     chk.log(f"{len(pairs)} pairs ({sum(1 for p in pairs if p['generic'])} generic substitutes), "
             f"{len(flagged)} flagged, {len(live['missing'])} targets absent, {len(live['nosig'])} without signature")
+    sweep_dir, sweep_procs = start_sweep_workers(chk.tier, 12 if thorough else 8)
     t1 = time.time()
     proved = chk.prove(MODS, checker=thorough)
     chk.log(f"extraction {round(t1 - chk.t0, 1)} s, Lean build+audit {round(time.time() - t1, 1)} s")
@@ -976,10 +977,8 @@ def run(chk: Check) -> None:
     chk.info("replay_details", details)
     chk.add("disagreements_checked", stats["representatives"])
 
-    # ---- meaning of forwarded arguments (validation by execution): sampled non-generic pairs
-    sem = semantic_sample(chk, rng, [p for p in pairs if not p["generic"] and p["kind"] == "monkey"],
-                          24 if not thorough else 10_000)
-    unlisted += sem
+    # ---- meaning of forwarded arguments: systematic parameter sweep (worker processes started above)
+    unlisted += collect_sweep(chk, sweep_dir, sweep_procs, 3000 if thorough else 900)
 
     # ---- "no argument is silently ignored": AST pass + execution probe (validation)
     ignored = []
@@ -1109,10 +1108,491 @@ def semantic_sample(chk: Check, rng: common.Rng, cands: list[dict], k: int) -> i
     return unlisted
 
 
+# ----------------------------------------------------------------------------- parameter sweep (meaning)
+
+SKIP_PARAMS = {"out", "device", "out_sharding", "precision", "preferred_element_type", "rngs", "rng", "key",
+               "dropout_rng", "module", "promote_dtype", "sow_weights", "order", "copy", "implementation",
+               "unroll", "body_fun", "cond_fun", "init_val", "self"}
+
+
+def _np_like(x):
+    try:
+        return np.asarray(x)
+    except Exception:
+        return None
+
+
+def candidate_values(pair: dict, pname: str, param: inspect.Parameter, vals: dict) -> list:
+    """Non-default values for one parameter of the original: by name, then by the type of its default.
+    Every candidate is tried eagerly on the original first; what it rejects is discarded."""
+    import jax.numpy as jnp
+    first = None
+    for v in vals.values():
+        if _is_arr(v):
+            first = np.asarray(v)
+            break
+    rank = first.ndim if first is not None else 1
+    d = param.default
+    by_name = {
+        "dtype": [jnp.int32, jnp.float16, jnp.float32],
+        "axis": [0, -1] + ([1] if rank > 1 else []) + ([(0, 1)] if rank > 1 else []),
+        "axes": [(0,), tuple(range(rank))[::-1]],
+        "keepdims": [True], "keepdim": [True],
+        "initial": [1.5], "ddof": [1], "decimals": [1], "k": [1, -1], "offset": [1],
+        "min": [-0.25], "max": [0.4], "a_min": [-0.25], "a_max": [0.4],
+        "where": [np.ones(first.shape, bool) if first is None else (np.arange(first.size).reshape(first.shape) % 2 == 0)]
+        if first is not None else [],
+        "stable": [False], "descending": [True], "endpoint": [False], "retstep": [True], "num": [7],
+        "side": ["right"], "indexing": ["ij"], "mode": ["clip", "wrap"], "fill_value": [2],
+        "approximate": [False, True], "negative_slope": [0.3], "alpha": [0.7], "epsilon": [1e-3], "eps": [1e-3],
+        "ord": [1, 2], "rcond": [1e-3], "n": [2], "prepend": [0.0], "append": [0.0], "base": [3.0],
+        "unique_indices": [True], "indices_are_sorted": [True], "promote_integers": [False],
+        "use_bias": [False], "deterministic": [True], "scale": [0.5], "is_causal": [True],
+        "count_include_pad": [False], "strides": [(1, 1)], "padding": ["SAME"], "invert": [True],
+        "assume_unique": [True], "total_repeat_length": [], "size": [],
+    }
+    out = list(by_name.get(pname, []))
+    if isinstance(d, bool):
+        out.append(not d)
+    elif isinstance(d, int) and pname not in by_name:
+        out += [d + 1, 0 if d != 0 else 1]
+    elif isinstance(d, float) and pname not in by_name:
+        out.append(d * 2 + 0.5)
+    res, seen = [], set()
+    for v in out:
+        key = repr(v)
+        if key in seen or (d is not K.empty and isinstance(v, (bool, int, float, str, tuple)) and v == d and type(v) is type(d)):
+            continue
+        seen.add(key)
+        res.append(v)
+    return res
+
+
+PRODUCERS = {
+    "id": None,
+    "abs": lambda a: abs(a),
+    "mul_self": lambda a: a * a,
+    "pow2": lambda a: a ** 2,
+}
+
+
+def sweep_forms(pair: dict, supplied: list[str], quick: bool) -> list[tuple[int, list[str]]]:
+    """Positional / keyword / MIXED forms of one value assignment: for every split point k the first k
+    positional parameters go positionally (defaults filled in explicitly), the rest by keyword."""
+    O = pair["O"]
+    pos = [q for q in O if q[1] in (0, 1)]
+    names = [q[0] for q in pos]
+    kmin = max(1 if pair["is_method"] else 0, len([q for q in pos if q[1] == 0 and q[0] in supplied]))
+    idx = [names.index(n) for n in supplied if n in names]
+    last = (max(idx) + 1) if idx else 0
+    forms = []
+    for k in range(kmin, max(last, kmin) + 1):
+        kw = [n for n in supplied if n not in names[:k]]
+        if any(q[0] in kw and q[1] not in (1, 3) for q in O):
+            continue
+        if any(not q[2] and q[0] not in supplied for q in pos[:k]):
+            continue
+        if py_binds(O, k, kw) and py_binds(pair["W"], k, kw):
+            forms.append((k, kw))
+    if quick and len(forms) > 4:
+        forms = [forms[0], forms[len(forms) // 2 - 1], forms[len(forms) // 2], forms[-1]]
+    return forms
+
+
+def _dtype_class_ok(got: np.dtype, want: np.dtype) -> bool:
+    if got == want:
+        return True
+    if want.kind in "iu" and got == np.dtype(np.int64):
+        return True          # integers may widen to int64 (C05)
+    if want.kind == "c" and got.kind == "f":
+        return True          # complex is exported as a pair of reals (C05)
+    return False
+
+
+def run_form_checked(pair: dict, args, kwargs, producer: str = "id") -> dict:
+    """run_form + dtype comparison, with an optional producer applied to the first float array argument
+    (inside the traced program and in the eager reference alike)."""
+    import jax
+    from jax2onnx import to_onnx
+    import irtools
+    tgt, attr = pair["tgt_obj"], pair["attr"]
+    prod = PRODUCERS[producer]
+    slots: list = []
+    t_args = [_split_traced(v, slots) for v in args]
+    t_kwargs = {k: _split_traced(v, slots) for k, v in kwargs.items()}
+    pslot = next((i for i, a in enumerate(slots) if a.dtype.kind == "f"), None) if prod else None
+
+    def feed(arrs):
+        arrs = list(arrs)
+        if pslot is not None:
+            arrs[pslot] = prod(arrs[pslot])
+        return arrs
+
+    def call(f, arrs):
+        arrs = feed(arrs)
+        return f(*[_fill(t, arrs) for t in t_args], **{k: _fill(t, arrs) for k, t in t_kwargs.items()})
+
+    try:
+        expected = call(pair["orig"], [jax.numpy.asarray(a) for a in slots])
+        raw_leaves = jax.tree_util.tree_leaves(expected)
+        exp_leaves = [np.asarray(l) for l in raw_leaves]
+        typed = [hasattr(l, "dtype") for l in raw_leaves]     # Python scalars carry no dtype to compare
+    except Exception as e:
+        return {"status": "original_rejects", "eager_error": f"{type(e).__name__}: {str(e)[:120]}"}
+    if any(l.dtype == object for l in exp_leaves) or not exp_leaves:
+        return {"status": "original_rejects", "eager_error": "non-array result"}
+
+    def program(*arrs):
+        return call(getattr(tgt, attr), arrs)
+
+    specs = [jax.ShapeDtypeStruct(a.shape, a.dtype) for a in slots]
+    try:
+        model = to_onnx(program, specs)
+    except TypeError as e:
+        return {"status": "binding_typeerror" if BIND_ERR.search(str(e)) else "other_typeerror",
+                "error": f"TypeError: {str(e)[:200]}"}
+    except (NotImplementedError, ValueError) as e:
+        return {"status": "explicit_rejection", "error": f"{type(e).__name__}: {str(e)[:160]}"}
+    except Exception as e:
+        return {"status": "other_error", "error": f"{type(e).__name__}: {str(e)[:200]}"}
+    res: dict = {"status": "exported"}
+    gin = list(model.graph.input)
+    if len(gin) != len(slots):
+        res["numeric"] = "skipped (inputs differ)"
+        return res
+    try:
+        got = irtools.run_ort(model, {i.name: a for i, a in zip(gin, slots)})
+    except Exception as e:
+        msg = str(e)
+        if "Type Error" in msg or "bound to different types" in msg:
+            res["numeric"] = "ORT_TYPE_ERROR"        # the model contradicts itself about an element type
+            res["error"] = msg[:200]
+        else:
+            # no kernel / operator newer than the runtime: other properties' business (C11, C03)
+            res["numeric"] = "skipped (runtime cannot run the model)"
+        return res
+    if len(got) == len(exp_leaves):
+        for j, (g, e) in enumerate(zip(got, exp_leaves)):
+            g = np.asarray(g)
+            if typed[j] and not _dtype_class_ok(g.dtype, e.dtype):
+                res["numeric"] = "DTYPE"
+                res["why"] = f"output {j}: onnx {g.dtype} vs jax {e.dtype}"
+                return res
+    if RANDOM_TARGETS.search(pair["target"]):
+        res["numeric"] = "skipped (random function)"
+        return res
+
+    def flat(arrs):
+        out = []
+        for x in arrs:
+            x = np.asarray(x)
+            if x.dtype.kind == "c":
+                x = np.stack([x.real, x.imag], axis=-1)
+            out.append(x.astype(np.float64).reshape(-1))
+        return np.concatenate(out) if out else np.zeros((0,))
+
+    g, e = flat(got), flat(exp_leaves)
+    half = any(l.dtype in (np.dtype(np.float16),) or "bfloat16" in l.dtype.name for l in exp_leaves)
+    rtol, atol = (2e-2, 2e-2) if half else (1e-3, 1e-4)
+    ok = g.shape == e.shape and bool(np.allclose(g, e, rtol=rtol, atol=atol, equal_nan=True))
+    res["numeric"] = "agree" if ok else "DISAGREE"
+    if not ok:
+        res["ort"], res["jax"] = g[:6].tolist(), e[:6].tolist()
+    return res
+
+
+def capture_all(pair: dict, max_cases: int = 6) -> list:
+    """Like capture_call, but one capture per testcase (distinct sets of supplied parameters first)."""
+    from jax2onnx.plugins import plugin_system as ps
+    plugin = ps.PLUGIN_REGISTRY.get(pair["plugin"])
+    tcs = list((getattr(plugin, "metadata", None) or {}).get("testcases", []) or [])
+    tgt, attr, orig = pair["tgt_obj"], pair["attr"], pair["orig"]
+    rng = np.random.default_rng(2024)
+    caps, seen = [], set()
+    for tc in tcs[:max_cases * 2]:
+        fn = tc.get("callable")
+        if fn is None or tc.get("input_params"):
+            continue
+        box: dict = {}
+
+        def recorder(*a, **k):
+            if "call" not in box:
+                box["call"] = (a, dict(k))
+            return orig(*a, **k)
+
+        try:
+            if hasattr(fn, "with_dtype"):
+                fn = fn.with_dtype(np.float32)
+            if hasattr(fn, "instantiate"):
+                fn = fn.instantiate()
+            xs = _concrete_inputs(tc, rng)
+            if xs is None:
+                continue
+            had = attr in getattr(tgt, "__dict__", {})
+            setattr(tgt, attr, recorder)
+            try:
+                fn(*xs)
+            finally:
+                if had or not inspect.isclass(tgt):
+                    setattr(tgt, attr, orig)
+                else:
+                    delattr(tgt, attr)
+        except Exception:
+            pass
+        if "call" in box:
+            try:
+                ba = pair["so"].bind(*box["call"][0], **box["call"][1])
+            except TypeError:
+                continue
+            if any(q[1] in (2, 4) and q[0] in ba.arguments and ba.arguments[q[0]] for q in pair["O"]):
+                continue
+            import jax
+            if any(isinstance(l, jax.core.Tracer) for l in jax.tree_util.tree_leaves(
+                    [v for v in ba.arguments.values() if isinstance(v, (list, tuple, dict)) or hasattr(v, "shape")])):
+                continue          # the testcase calls the target under vmap/grad: no concrete arguments
+            sig = (tuple(ba.arguments), tuple(repr(type(v)) for v in ba.arguments.values()))
+            if sig in seen:
+                continue
+            seen.add(sig)
+            caps.append((box["call"], tc.get("testcase")))
+            if len(caps) >= max_cases:
+                break
+    return caps
+
+
+def _call_from(pair: dict, vals: dict, k: int, kw: list[str]):
+    params = list(pair["so"].parameters.values())
+    pos = [q for q in params if q.kind in (K.POSITIONAL_ONLY, K.POSITIONAL_OR_KEYWORD)]
+
+    def value(q):
+        if q.name in vals:
+            return vals[q.name]
+        if q.default is not K.empty:
+            return q.default
+        raise KeyError(q.name)
+
+    try:
+        return [value(q) for q in pos[:k]], {n: vals[n] for n in kw}
+    except KeyError:
+        return None
+
+
+class SweepSink:
+    """Collects what a sweep (possibly in a worker process) saw; replayed into the Check by the parent."""
+
+    def __init__(self):
+        self.cases: list = []
+        self.findings: list = []
+        self.stats: dict = {}
+
+    def count(self, case, nontrivial=True):
+        self.cases.append((case, nontrivial))
+
+    def finding(self, key, what, replay):
+        self.findings.append((key, what, replay))
+        return True
+
+    def info(self, k, v):
+        self.stats = v
+
+    def log(self, msg):
+        pass
+
+
+def sweep_targets(pairs: list[dict]) -> list[dict]:
+    seen_t, targets = set(), []
+    for p in pairs:
+        if p["kind"] != "monkey" or id(p["orig"]) in seen_t:
+            continue
+        seen_t.add(id(p["orig"]))
+        targets.append(p)
+    return targets
+
+
+def parameter_sweep(chk, rng, pairs: list[dict], thorough: bool, shard=None, only_target=None) -> int:
+    """For every substituted function with a plugin testcase: every parameter of the original with a
+    non-default value, in positional, keyword and mixed forms, behind producers that trigger plugin-internal
+    fusions; values AND dtypes against eager JAX."""
+    targets = sweep_targets(pairs)
+    if shard is not None:
+        targets = [t for i, t in enumerate(targets) if i % shard[1] == shard[0]]
+    if only_target is not None:
+        targets = [t for t in targets if t["target"] == only_target]
+    stats = {"targets": 0, "targets_without_capture": 0, "assignments": 0, "calls": 0, "agree": 0,
+             "original_rejects": 0, "explicit_rejection": 0, "skipped_numeric": 0, "deviations": 0}
+    unlisted = 0
+    budget_calls = 10 ** 9 if thorough else 14      # per target in the quick tier
+    t_start = time.time()
+    for p in targets:
+        caps = capture_all(p, 6 if thorough else 3)
+        if not caps:
+            stats["targets_without_capture"] += 1
+            continue
+        stats["targets"] += 1
+        params = p["so"].parameters
+        work = []        # (vals, what, producers)
+        for ci, (cap, tcname) in enumerate(caps):
+            try:
+                vals = dict(p["so"].bind(*cap[0], **cap[1]).arguments)
+            except TypeError:
+                continue
+            ck, ckw = len(cap[0]), list(cap[1])
+            cbc = _call_from(p, vals, ck, ckw)
+            try:
+                ctrl = run_form_checked(p, cbc[0], cbc[1], "id") if cbc else {"status": "none"}
+            except Exception:
+                ctrl = {"status": "harness"}
+            if not (ctrl["status"] == "exported" and (ctrl.get("numeric") == "agree"
+                                                       or str(ctrl.get("numeric")).startswith("skipped"))):
+                # the plugin's own call does not survive the one-call program of this harness (an argument
+                # that must stay static became a graph input, ...): nothing can be concluded from variants
+                stats.setdefault("captures_without_control", 0)
+                stats["captures_without_control"] += 1
+                continue
+            work.append((vals, {"capture": tcname}, ["id"]))
+            extra = [n for n, q in params.items()
+                     if n not in vals and n not in SKIP_PARAMS and q.kind in (K.POSITIONAL_OR_KEYWORD, K.KEYWORD_ONLY)
+                     and q.default is not K.empty]
+            if ci > 0 and not thorough:
+                extra = []
+            for n in extra:
+                cands = candidate_values(p, n, params[n], vals)
+                if not thorough:
+                    cands = cands[:2]
+                for v in cands:
+                    prods = ["id", "abs", "mul_self", "pow2"] if (thorough or n == "dtype") else ["id", "abs"]
+                    work.append(({**vals, n: v}, {"capture": tcname, "param": n, "value": repr(v)[:40]}, prods))
+        calls = 0
+        for vals, what, prods in work:
+            stats["assignments"] += 1
+            forms = sweep_forms(p, list(vals), not thorough)
+            if "param" in what and not thorough:
+                # the new parameter by keyword and (if possible) positionally
+                pn = what["param"]
+                forms = [f for f in forms if pn in f[1]][:1] + [f for f in forms if pn not in f[1]][-1:]
+            for fi, (k, kw) in enumerate(forms):
+                plain_deviates = False
+                for pr in (prods if fi == 0 else prods[:1]):
+                    if calls >= budget_calls or plain_deviates:
+                        break
+                    bc = _call_from(p, vals, k, kw)
+                    if bc is None:
+                        continue
+                    try:
+                        out = run_form_checked(p, bc[0], bc[1], pr)
+                    except Exception as e:      # argument plumbing of the harness, not a verdict
+                        stats.setdefault("harness_skips", 0)
+                        stats["harness_skips"] += 1
+                        continue
+                    calls += 1
+                    stats["calls"] += 1
+                    st, num = out["status"], out.get("numeric")
+                    case = {"sweep": p["target"], "form": form_str(k, kw), "producer": pr, **what,
+                            "status": st, "numeric": num}
+                    chk.count(case, nontrivial=st == "exported")
+                    if st == "original_rejects":
+                        stats["original_rejects"] += 1
+                    elif st == "explicit_rejection":
+                        stats["explicit_rejection"] += 1
+                    elif st == "exported" and num == "agree":
+                        stats["agree"] += 1
+                    elif st == "exported" and str(num).startswith("skipped"):
+                        stats["skipped_numeric"] += 1
+                    else:
+                        stats["deviations"] += 1
+                        plain_deviates = pr == "id"
+                        key = {"target": p["target"], "kind": "meaning", "call_form": form_str(k, kw),
+                               "param": what.get("param", ""), "value": what.get("value", ""),
+                               "producer": pr, "outcome": num or st}
+                        whatmsg = (f"{p['target']}({form_str(k, kw)}"
+                                   + (f", {what['param']}={what['value']}" if "param" in what else "")
+                                   + (f", first array argument = {pr}(x)" if pr != "id" else "")
+                                   + f") agrees with the library outside conversion but the export gives "
+                                     f"{num or st}: {out.get('why') or out.get('error') or ''} "
+                                     f"{('onnx=' + str(out.get('ort')) + ' jax=' + str(out.get('jax'))) if 'ort' in out else ''}")[:400]
+                        if not chk.finding(key, whatmsg, {"plugin": p["plugin"], "observation": out,
+                                                          "testcase_used_for_arguments": what.get("capture"),
+                                                          "values": {n: repr(v)[:60] for n, v in vals.items()},
+                                                          "how": "harness/vcheck.py C19 --replay <this file>"}):
+                            unlisted += 1
+    stats["wall_s"] = round(time.time() - t_start, 1)
+    chk.info("parameter_sweep", stats)
+    chk.log(f"parameter sweep: {stats['targets']} functions, {stats['calls']} calls, {stats['agree']} agree, "
+            f"{stats['deviations']} deviations in {stats['wall_s']} s")
+    return unlisted
+
+
+def sweep_worker(i: int, n: int, tier: str, out: str) -> None:
+    """Entry point of one sweep worker process (own import of /repo, own registry walk)."""
+    live = collect_pairs()
+    sink = SweepSink()
+    parameter_sweep(sink, None, live["pairs"], tier == "thorough", shard=(i, n))
+    with open(out, "w") as fh:
+        json.dump({"cases": sink.cases, "findings": sink.findings, "stats": sink.stats}, fh, default=str)
+
+
+def start_sweep_workers(tier: str, n: int):
+    import os
+    import subprocess
+    import sys
+    import tempfile
+    d = tempfile.mkdtemp(prefix="c19sweep_")
+    harness = str(common.VERIF / "harness")
+    procs = []
+    for i in range(n):
+        out = os.path.join(d, f"w{i}.json")
+        code = (f"import sys; sys.path.insert(0, {harness!r}); import common; common.use_repo(); "
+                f"from props import c19; c19.sweep_worker({i}, {n}, {tier!r}, {out!r})")
+        env = dict(os.environ)
+        env.setdefault("XLA_FLAGS", "--xla_cpu_multi_thread_eigen=false intra_op_parallelism_threads=1")
+        env.setdefault("OMP_NUM_THREADS", "1")
+        procs.append((subprocess.Popen([sys.executable, "-c", code], stdout=subprocess.DEVNULL,
+                                       stderr=subprocess.PIPE, env=env), out))
+    return d, procs
+
+
+def collect_sweep(chk: Check, d: str, procs, timeout: int) -> int:
+    import shutil
+    unlisted = 0
+    total: dict = {}
+    try:
+        for proc, out in procs:
+            try:
+                _, err = proc.communicate(timeout=timeout)
+            except Exception:
+                proc.kill()
+                raise RuntimeError("parameter-sweep worker timed out")
+            if proc.returncode != 0:
+                raise RuntimeError(f"parameter-sweep worker failed: {err.decode()[-1500:]}")
+            data = json.loads(open(out).read())
+            for case, nt in data["cases"]:
+                chk.count(case, nontrivial=nt)
+            for key, what, rep in data["findings"]:
+                if not chk.finding(key, what, rep):
+                    unlisted += 1
+            for k, v in data["stats"].items():
+                if isinstance(v, (int, float)):
+                    total[k] = round(total.get(k, 0) + v, 1) if k != "wall_s" else max(total.get(k, 0), v)
+    finally:
+        shutil.rmtree(d, ignore_errors=True)
+    chk.info("parameter_sweep", total)
+    chk.log(f"parameter sweep ({len(procs)} workers): {total.get('targets')} functions, {total.get('calls')} calls, "
+            f"{total.get('agree')} agree, {total.get('deviations')} deviations, slowest worker {total.get('wall_s')} s")
+    return unlisted
+
+
 def replay(path: str) -> int:
     rep = json.loads(open(path).read())
     print(json.dumps(rep, indent=1, default=str)[:2500])
     key = rep.get("finding_key", {})
+    if key.get("kind") == "meaning":
+        live = collect_pairs()
+        sink = SweepSink()
+        parameter_sweep(sink, None, live["pairs"], True, only_target=key["target"])
+        same = [k for k, _, _ in sink.findings
+                if all(k.get(f) == key.get(f) for f in ("call_form", "param", "value", "producer"))]
+        print("now:", same[:3] if same else "no deviation for this call")
+        return 1 if same else 0
     if "call_form" not in key:
         if key.get("kind") == "ignored_arguments" and key.get("target") == "jax.random.truncated_normal":
             pr = probe_truncated_normal()
